@@ -241,4 +241,105 @@ MODE_MUTANTS = [
 ]
 MUTANTS += MODE_MUTANTS
 
+VALUE_MUTANTS = [
+    dict(id="c04-drop-test", props=["C04"], rule="V1",
+         edits=[(MARSHAL, "    if not value_typed.is_valid():\n", "    if value < 0:\n")]),
+    dict(id="c04-raise-after-event", props=["C04"], rule="V1", names="raise after event",
+         edits=[(MARSHAL, """        error = ValueConstraintViolatedError(constraint=value_constraint, value=value)
+        if abort_on_error:
+            raise error
+
+    none = yield event
+    assert none is None
+""", """        error = ValueConstraintViolatedError(constraint=value_constraint, value=value)
+
+    none = yield event
+    assert none is None
+    if error and abort_on_error:
+        raise error
+""")]),
+    dict(id="c04-second-conversion", props=["C04"], rule="V3", names="process_tpm2b",
+         edits=[(MARSHAL, "    values[size_field.name] = buffer_size_exp\n", "    values[size_field.name] = buffer_size_exp\n    _raw = int.from_bytes(bytes(2), byteorder=\"big\")\n")]),
+    dict(id="c04-is-valid-true", props=["C04"], rule="V4", names="is_valid",
+         edits=[(BASE, "        return self._value in self._valid_values\n", "        return self._value in self._valid_values or self._value == 0\n")]),
+    dict(id="c04-contains-inverted", props=["C04"], rule="V4", names="__contains__",
+         edits=[(VALUES, "        return self.get(value) is not None\n", "        return self.get(value) is None\n")]),
+    dict(id="c04-get-identity", props=["C04"], rule="V4", names="equality",
+         edits=[(VALUES, "            if value == v:\n                return v\n", "            if value is v:\n                return v\n")]),
+    dict(id="c04-namedrange-closed", props=["C04", "C16"], rule={"C04": "V4", "C16": "O4"}, names="NamedRange.__contains__",
+         edits=[(VALUES, "        return self._start <= item < self._end\n", "        return self._start <= item <= self._end\n")]),
+    dict(id="c04-cc-valid-set", props=["C04"], rule="V6", names="command code",
+         edits=[(MARSHAL, """                    constraint_path=path + PathNode(selector_name),
+                    tpm_type=selector_type,
+                    valid_values=ValidValues(TPM_CC),
+                )
+                raise ValueConstraintViolatedError(
+                    constraint=value_constraint,
+                    value=selector_value,""", """                    constraint_path=path + PathNode(selector_name),
+                    tpm_type=selector_type,
+                    valid_values=ValidValues(TPM_ST),
+                )
+                raise ValueConstraintViolatedError(
+                    constraint=value_constraint,
+                    value=selector_value,""")]),
+    dict(id="c04-error-path", props=["C04"], rule="V2", names="constraint_path",
+         edits=[(MARSHAL, "        constraint_path=path, tpm_type=tpm_type, valid_values=value_typed._valid_values", "        constraint_path=path[:-1], tpm_type=tpm_type, valid_values=value_typed._valid_values")]),
+    dict(id="c04-keyerror-swallowed", props=["C04"], rule="V6",
+         edits=[(MARSHAL, """                raise ValueConstraintViolatedError(
+                    constraint=value_constraint,
+                    value=selector_value,
+                ) from error
+""", """                field_type = TPMS_AUTH_COMMAND
+""")]),
+    dict(id="c04-benign-local-rename", props=["C04", "C01", "C02", "C10"], benign=True,
+         edits=[(MARSHAL, "value_typed", "typed", 0)]),
+]
+MUTANTS += VALUE_MUTANTS
+
+INT_MUTANTS = [
+    dict(id="c02-little-endian", props=["C02", "C01", "C16"], rule={"C02": "B1", "C01": "W2", "C16": "B1"}, names="byteorder",
+         edits=[(MARSHAL, 'value = int.from_bytes(data, byteorder="big", signed=tpm_type._signed)', 'value = int.from_bytes(data, byteorder="little", signed=tpm_type._signed)')]),
+    dict(id="c02-unsigned-const", props=["C02", "C01"], rule={"C02": "B1", "C01": "W2"}, names="signed",
+         edits=[(MARSHAL, 'value = int.from_bytes(data, byteorder="big", signed=tpm_type._signed)', 'value = int.from_bytes(data, byteorder="big", signed=False)')]),
+    dict(id="c02-writer-width", props=["C02", "C16"], rule="B1", names="width",
+         edits=[(BASE, "        if size is None:\n            size = self._int_size\n", "        if size is None:\n            size = max(1, (int(self._value).bit_length() + 7) // 8)\n")]),
+    dict(id="c02-writer-order-default", props=["C02", "C16"], rule="B1", names="byteorder",
+         edits=[(BASE, 'def to_bytes(self, size=None, byteorder="big", signed=None):', 'def to_bytes(self, size=None, byteorder="little", signed=None):')]),
+    dict(id="c02-info-bytes", props=["C02"], rule="B2", names="InfoEvent",
+         edits=[(BINUN, '    if isinstance(event, InfoEvent):\n        return b""\n\n', '')]),
+    dict(id="c02-filtering-unmarshal", props=["C02"], rule="B3",
+         edits=[(BINUN, "    yield from (to_bytes(event) for event in events)", "    yield from (to_bytes(event) for event in events if event.value is not ...)")]),
+    dict(id="c02-override", props=["C02", "C16"], rule="B4", names="to_bytes",
+         edits=[(CONST, "class TPM_ALG_ID(TPM_ALG):\n    pass\n", "class TPM_ALG_ID(TPM_ALG):\n    def to_bytes(self):\n        return int(self).to_bytes(2, \"little\")\n")]),
+    dict(id="c02-valid-too-wide", props=["C02"], rule="B5", names="TPMI_YES_NO",
+         edits=[(IFACE, "class TPMI_YES_NO(BOOL):\n    _valid_values = ValidValues(\n        0,\n        1,\n    )", "class TPMI_YES_NO(BOOL):\n    _valid_values = ValidValues(\n        0,\n        1,\n        256,\n    )")]),
+    dict(id="c02-algvalue-narrow", props=["C02", "C16"], rule="B1", names="AlgValue",
+         edits=[(CONST, "        return self._value.to_bytes(*args, **kwargs)", "        return self._value.to_bytes(2, \"big\")")]),
+    # ------------------------------------------------------------------ C16
+    dict(id="c16-rsub", props=["C16"], rule="O1", names="__rsub__",
+         edits=[(BASE, "    def __rsub__(self, other):\n        return other - int(self)\n", "    def __rsub__(self, other):\n        return int(self) - other\n")]),
+    dict(id="c16-delete-rxor", props=["C16"], rule="O1", names="__rxor__",
+         edits=[(BASE, '    setattr(cls, "__rxor__", __rxor__)\n', '')]),
+    dict(id="c16-wrong-slot", props=["C16"], rule="O1", names="__le__",
+         edits=[(BASE, '    setattr(cls, "__le__", __le__)\n', '    setattr(cls, "__le__", __lt__)\n')]),
+    dict(id="c16-hash", props=["C16"], rule="O1", names="__hash__",
+         edits=[(BASE, "        return hash(int(self))\n", "        return hash(id(self))\n")]),
+    dict(id="c16-floordiv", props=["C16"], rule="O1", names="__floordiv__",
+         edits=[(BASE, "    def __floordiv__(self, other):\n        return int(self) // other\n", "    def __floordiv__(self, other):\n        return int(self) / other\n")]),
+    dict(id="c16-name-offset", props=["C16"], rule="O4", names="by_number",
+         edits=[(VALUES, "            index=int(number) - self._start,\n", "            index=int(number),\n")]),
+    dict(id="c16-enum-format", props=["C16"], rule="O4", names="__format__",
+         edits=[(VALUES, '            return f"{type(self).__name__}.{self._name}"\n\n        setattr(cls, "__format__", __format__)\n        setattr(cls, "__str__", __format__)\n        setattr(cls, "__repr__", __format__)\n\n        setattr(cls, "_valid_values"',
+                 '            return f"{self._name}"\n\n        setattr(cls, "__format__", __format__)\n        setattr(cls, "__str__", __format__)\n        setattr(cls, "__repr__", __format__)\n\n        setattr(cls, "_valid_values"')]),
+    dict(id="c16-width", props=["C16", "C20"], rule={"C16": "O3", "C20": "T6"}, names="UINT16",
+         edits=[(BASET, "class UINT16(_UINT):\n    _int_size = 2\n", "class UINT16(_UINT):\n    _int_size = 4\n")]),
+    dict(id="c16-own-width", props=["C16"], rule="O3", names="TPM_KEY_BITS",
+         edits=[(BASET, "class TPM_KEY_BITS(UINT16):\n    pass\n", "class TPM_KEY_BITS(UINT16):\n    _int_size = 4\n")]),
+    dict(id="c16-member-rename", props=["C16", "C20"], rule={"C16": "O6", "C20": "T6"}, names="TPM_SU",
+         edits=[(CONST, "class TPM_SU(UINT16):\n    CLEAR = 0x0000\n", "class TPM_SU(UINT16):\n    CLEARED = 0x0000\n")]),
+    dict(id="c16-benign-param-rename", props=["C16", "C02"], benign=True,
+         edits=[(BASE, "    def __rsub__(self, other):\n        return other - int(self)\n", "    def __rsub__(self, rhs):\n        return rhs - int(self)\n")]),
+]
+MUTANTS += INT_MUTANTS
+
 MUTANTS = [m for m in MUTANTS if not m.get("skip_if_missing")]
